@@ -207,7 +207,7 @@ fn run(ctx: &mut Ctx) {
         }
     }
     // generated programs (clean lattice)
-    let n = tier.pick(800u64, 60_000u64) / ctx.nshards as u64 + 1;
+    let n = tier.pickn(800u64, 60_000u64) / ctx.nshards as u64 + 1;
     let opts = DiffOpts { prop: "C02", vet_is_violation: true, budget: 400_000, print: PrintOpts::default() };
     for i in 0..n {
         let mut rng = Rng::keyed(seed, "c02-gen", ctx.shard as u64, i);
